@@ -192,20 +192,10 @@ fn port_event(code: u8, ics: bool, open_frame: bool, port: u8, follower: bool) {
 	forget(res);
 }
 
-fn nopanic_port_variants(code: u8) {
-	// P2 is the only occupied port (wire value 1) and does not hold Ice Climbers
-	port_event(code, false, true, 1, false); // well addressed, arbitrary frame id
-	port_event(code, false, true, 1, true); // follower event for a non-ICs port
-	port_event(code, false, true, 0, false); // unoccupied port
-	port_event(code, false, true, 4, false); // port number out of range
-	port_event(code, false, true, 255, true); // port number out of range, follower
-	kani::cover!(true, "reached");
-}
-
-// @verif property=C06 tier=quick mem=16 timeout=3000
-// @encodes peppi::io::slippi::de::parse_event Frame Pre arm with arbitrary frame id and a port byte / follower flag that do not fit the game
-// @symbolic 3000 open frame's id and payload; frame id and payload of the Frame Pre event (5 events)
-// @bound 3.16 state, one occupied port (P2, not Ice Climbers), one open frame; port byte in {1, 0, 4, 255} x follower flag (5 combinations, concrete)
+// @verif property=C06 tier=quick mem=12 timeout=2400
+// @encodes peppi::io::slippi::de::parse_event Frame Pre arm: event addressed to the occupied port, arbitrary frame id
+// @symbolic 700 open frame's id and payload; frame id and payload of the event
+// @bound 3.16 state, one occupied port (P2, not Ice Climbers), one open frame, one event; port byte 1 and follower flag false are concrete (a symbolic port index turns every column access into a symbolic pointer: > 19 min)
 // @assume the port's column set is a typed stack object
 // @stub alloc::fmt::format = returns an empty String
 // @stub std::hash::RandomState::new = fixed keys
@@ -214,14 +204,15 @@ fn nopanic_port_variants(code: u8) {
 #[kani::unwind(8)]
 #[kani::stub(alloc::fmt::format, format_stub)]
 #[kani::stub(std::hash::RandomState::new, random_state_stub)]
-fn c06_nopanic_pre_any_header() {
-	nopanic_port_variants(0x37);
+fn c06_nopanic_pre_addressed() {
+	port_event(0x37, false, true, 1, false);
+	kani::cover!(true, "returned");
 }
 
-// @verif property=C06 tier=quick mem=16 timeout=3000
-// @encodes peppi::io::slippi::de::parse_event Frame Post arm with arbitrary frame id and a port byte / follower flag that do not fit the game
-// @symbolic 3800 open frame's id and payload; frame id and payload of the Frame Post event (5 events)
-// @bound 3.16 state, one occupied port (P2, not Ice Climbers), one open frame; port byte in {1, 0, 4, 255} x follower flag (5 combinations, concrete)
+// @verif property=C06 tier=quick mem=12 timeout=2400
+// @encodes peppi::io::slippi::de::parse_event Frame Pre arm: event addressed to follower flag set for a port that does not hold Ice Climbers
+// @symbolic 700 open frame's id and payload; frame id and payload of the event
+// @bound 3.16 state, one occupied port (P2, not Ice Climbers), one open frame, one event; port byte 1 and follower flag true are concrete (a symbolic port index turns every column access into a symbolic pointer: > 19 min)
 // @assume the port's column set is a typed stack object
 // @stub alloc::fmt::format = returns an empty String
 // @stub std::hash::RandomState::new = fixed keys
@@ -230,14 +221,151 @@ fn c06_nopanic_pre_any_header() {
 #[kani::unwind(8)]
 #[kani::stub(alloc::fmt::format, format_stub)]
 #[kani::stub(std::hash::RandomState::new, random_state_stub)]
-fn c06_nopanic_post_any_header() {
-	nopanic_port_variants(0x38);
+fn c06_nopanic_pre_follower_non_ics() {
+	port_event(0x37, false, true, 1, true);
+	kani::cover!(true, "returned");
+}
+
+// @verif property=C06 tier=quick mem=12 timeout=2400
+// @encodes peppi::io::slippi::de::parse_event Frame Pre arm: event addressed to a port that is not occupied
+// @symbolic 700 open frame's id and payload; frame id and payload of the event
+// @bound 3.16 state, one occupied port (P2, not Ice Climbers), one open frame, one event; port byte 0 and follower flag false are concrete (a symbolic port index turns every column access into a symbolic pointer: > 19 min)
+// @assume the port's column set is a typed stack object
+// @stub alloc::fmt::format = returns an empty String
+// @stub std::hash::RandomState::new = fixed keys
+// @cbmc --max-field-sensitivity-array-size 512
+#[kani::proof]
+#[kani::unwind(8)]
+#[kani::stub(alloc::fmt::format, format_stub)]
+#[kani::stub(std::hash::RandomState::new, random_state_stub)]
+fn c06_nopanic_pre_unoccupied() {
+	port_event(0x37, false, true, 0, false);
+	kani::cover!(true, "returned");
+}
+
+// @verif property=C06 tier=quick mem=12 timeout=2400
+// @encodes peppi::io::slippi::de::parse_event Frame Pre arm: event addressed to port number 4 (out of range)
+// @symbolic 700 open frame's id and payload; frame id and payload of the event
+// @bound 3.16 state, one occupied port (P2, not Ice Climbers), one open frame, one event; port byte 4 and follower flag false are concrete (a symbolic port index turns every column access into a symbolic pointer: > 19 min)
+// @assume the port's column set is a typed stack object
+// @stub alloc::fmt::format = returns an empty String
+// @stub std::hash::RandomState::new = fixed keys
+// @cbmc --max-field-sensitivity-array-size 512
+#[kani::proof]
+#[kani::unwind(8)]
+#[kani::stub(alloc::fmt::format, format_stub)]
+#[kani::stub(std::hash::RandomState::new, random_state_stub)]
+fn c06_nopanic_pre_port4() {
+	port_event(0x37, false, true, 4, false);
+	kani::cover!(true, "returned");
+}
+
+// @verif property=C06 tier=quick mem=12 timeout=2400
+// @encodes peppi::io::slippi::de::parse_event Frame Pre arm: event addressed to port number 255 (out of range), follower flag set
+// @symbolic 700 open frame's id and payload; frame id and payload of the event
+// @bound 3.16 state, one occupied port (P2, not Ice Climbers), one open frame, one event; port byte 255 and follower flag true are concrete (a symbolic port index turns every column access into a symbolic pointer: > 19 min)
+// @assume the port's column set is a typed stack object
+// @stub alloc::fmt::format = returns an empty String
+// @stub std::hash::RandomState::new = fixed keys
+// @cbmc --max-field-sensitivity-array-size 512
+#[kani::proof]
+#[kani::unwind(8)]
+#[kani::stub(alloc::fmt::format, format_stub)]
+#[kani::stub(std::hash::RandomState::new, random_state_stub)]
+fn c06_nopanic_pre_port255() {
+	port_event(0x37, false, true, 255, true);
+	kani::cover!(true, "returned");
+}
+
+// @verif property=C06 tier=quick mem=12 timeout=2400
+// @encodes peppi::io::slippi::de::parse_event Frame Post arm: event addressed to the occupied port, arbitrary frame id
+// @symbolic 860 open frame's id and payload; frame id and payload of the event
+// @bound 3.16 state, one occupied port (P2, not Ice Climbers), one open frame, one event; port byte 1 and follower flag false are concrete (a symbolic port index turns every column access into a symbolic pointer: > 19 min)
+// @assume the port's column set is a typed stack object
+// @stub alloc::fmt::format = returns an empty String
+// @stub std::hash::RandomState::new = fixed keys
+// @cbmc --max-field-sensitivity-array-size 512
+#[kani::proof]
+#[kani::unwind(8)]
+#[kani::stub(alloc::fmt::format, format_stub)]
+#[kani::stub(std::hash::RandomState::new, random_state_stub)]
+fn c06_nopanic_post_addressed() {
+	port_event(0x38, false, true, 1, false);
+	kani::cover!(true, "returned");
+}
+
+// @verif property=C06 tier=quick mem=12 timeout=2400
+// @encodes peppi::io::slippi::de::parse_event Frame Post arm: event addressed to follower flag set for a port that does not hold Ice Climbers
+// @symbolic 860 open frame's id and payload; frame id and payload of the event
+// @bound 3.16 state, one occupied port (P2, not Ice Climbers), one open frame, one event; port byte 1 and follower flag true are concrete (a symbolic port index turns every column access into a symbolic pointer: > 19 min)
+// @assume the port's column set is a typed stack object
+// @stub alloc::fmt::format = returns an empty String
+// @stub std::hash::RandomState::new = fixed keys
+// @cbmc --max-field-sensitivity-array-size 512
+#[kani::proof]
+#[kani::unwind(8)]
+#[kani::stub(alloc::fmt::format, format_stub)]
+#[kani::stub(std::hash::RandomState::new, random_state_stub)]
+fn c06_nopanic_post_follower_non_ics() {
+	port_event(0x38, false, true, 1, true);
+	kani::cover!(true, "returned");
+}
+
+// @verif property=C06 tier=thorough mem=12 timeout=2400
+// @encodes peppi::io::slippi::de::parse_event Frame Post arm: event addressed to a port that is not occupied
+// @symbolic 860 open frame's id and payload; frame id and payload of the event
+// @bound 3.16 state, one occupied port (P2, not Ice Climbers), one open frame, one event; port byte 0 and follower flag false are concrete (a symbolic port index turns every column access into a symbolic pointer: > 19 min)
+// @assume the port's column set is a typed stack object
+// @stub alloc::fmt::format = returns an empty String
+// @stub std::hash::RandomState::new = fixed keys
+// @cbmc --max-field-sensitivity-array-size 512
+#[kani::proof]
+#[kani::unwind(8)]
+#[kani::stub(alloc::fmt::format, format_stub)]
+#[kani::stub(std::hash::RandomState::new, random_state_stub)]
+fn c06_nopanic_post_unoccupied() {
+	port_event(0x38, false, true, 0, false);
+	kani::cover!(true, "returned");
+}
+
+// @verif property=C06 tier=quick mem=12 timeout=2400
+// @encodes peppi::io::slippi::de::parse_event Frame Post arm: event addressed to port number 4 (out of range)
+// @symbolic 860 open frame's id and payload; frame id and payload of the event
+// @bound 3.16 state, one occupied port (P2, not Ice Climbers), one open frame, one event; port byte 4 and follower flag false are concrete (a symbolic port index turns every column access into a symbolic pointer: > 19 min)
+// @assume the port's column set is a typed stack object
+// @stub alloc::fmt::format = returns an empty String
+// @stub std::hash::RandomState::new = fixed keys
+// @cbmc --max-field-sensitivity-array-size 512
+#[kani::proof]
+#[kani::unwind(8)]
+#[kani::stub(alloc::fmt::format, format_stub)]
+#[kani::stub(std::hash::RandomState::new, random_state_stub)]
+fn c06_nopanic_post_port4() {
+	port_event(0x38, false, true, 4, false);
+	kani::cover!(true, "returned");
+}
+
+// @verif property=C06 tier=thorough mem=12 timeout=2400
+// @encodes peppi::io::slippi::de::parse_event Frame Post arm: event addressed to port number 255 (out of range), follower flag set
+// @symbolic 860 open frame's id and payload; frame id and payload of the event
+// @bound 3.16 state, one occupied port (P2, not Ice Climbers), one open frame, one event; port byte 255 and follower flag true are concrete (a symbolic port index turns every column access into a symbolic pointer: > 19 min)
+// @assume the port's column set is a typed stack object
+// @stub alloc::fmt::format = returns an empty String
+// @stub std::hash::RandomState::new = fixed keys
+// @cbmc --max-field-sensitivity-array-size 512
+#[kani::proof]
+#[kani::unwind(8)]
+#[kani::stub(alloc::fmt::format, format_stub)]
+#[kani::stub(std::hash::RandomState::new, random_state_stub)]
+fn c06_nopanic_post_port255() {
+	port_event(0x38, false, true, 255, true);
+	kani::cover!(true, "returned");
 }
 
 // @verif property=C06 tier=thorough mem=16 timeout=3000
-// @encodes peppi::io::slippi::de::parse_event Frame Pre / Frame Post arms before any frame was opened
-// @symbolic 1300 the two events
-// @bound 3.16 state, one occupied port, no frame yet, one Frame Post and one Frame Pre event
+// @encodes peppi::io::slippi::de::parse_event Frame Post arm before any frame was opened
+// @symbolic 860 the event
+// @bound 3.16 state, one occupied port, no frame yet, one Frame Post event
 // @assume the port's column set is a typed stack object
 // @stub alloc::fmt::format = returns an empty String
 // @stub std::hash::RandomState::new = fixed keys
@@ -248,6 +376,22 @@ fn c06_nopanic_post_any_header() {
 #[kani::stub(std::hash::RandomState::new, random_state_stub)]
 fn c06_nopanic_post_no_frame() {
 	port_event(0x38, false, false, 1, false);
+	kani::cover!(true, "reached");
+}
+
+// @verif property=C06 tier=thorough mem=16 timeout=3000
+// @encodes peppi::io::slippi::de::parse_event Frame Pre arm before any frame was opened (3.16: frames are opened by Frame Start)
+// @symbolic 700 the event
+// @bound 3.16 state, one occupied port, no frame yet, one Frame Pre event
+// @assume the port's column set is a typed stack object
+// @stub alloc::fmt::format = returns an empty String
+// @stub std::hash::RandomState::new = fixed keys
+// @cbmc --max-field-sensitivity-array-size 512
+#[kani::proof]
+#[kani::unwind(8)]
+#[kani::stub(alloc::fmt::format, format_stub)]
+#[kani::stub(std::hash::RandomState::new, random_state_stub)]
+fn c06_nopanic_pre_no_frame() {
 	port_event(0x37, false, false, 1, false);
 	kani::cover!(true, "reached");
 }
